@@ -293,6 +293,61 @@ def drive_dispatch(case, extra):
         return rec
 
 
+def drive_dhist(case, extra):
+    """A history of dispatches (C04_DHist) on ONE mapper instance per run: the node classes of
+    the history are built once, the mapper is instantiated once per run and applied to an
+    instance of each class in turn (entry point and extra arguments by position); the log is
+    emptied between dispatches.  Recorded per dispatch: as in drive_dispatch."""
+    import pymbolic.primitives as p
+    from pymbolic.mapper import CachedMapper, Mapper
+    with warnings.catch_warnings():
+        warnings.simplefilter("ignore")
+        c = case["case"]
+        rec = {"id": case["id"], "case": c}
+        nodes, names = [], []
+        for e in c["hist"]:
+            if e["chain"]:
+                classes = build_hierarchy(e["base"], e["chain"])
+                cls = classes[-1]
+            else:
+                classes, cls = [], getattr(p, e["base"])
+            names.append([getattr(k, "mapper_method", None) or "" for k in classes])
+            nodes.append(instance_of(e["base"], cls))
+        rec["names"] = names
+        obs, stubs = [], []
+        for run in extra["hruns"]:
+            log = []
+            base = CachedMapper if run["mapper"] == "cached" else Mapper
+            cls, stubs = make_dispatch_mapper(base, c["impl"], run["hookret"], log)
+            m = cls()                      # ONE instance for the whole history
+            row = []
+            for i, node in enumerate(nodes):
+                del log[:]
+                a, k = mk_args(extra["hargs"][i])
+                o = {"first": "", "a": [], "k": [], "res": "", "exc": "", "n": 0, "seq": [],
+                     "same": True}
+                try:
+                    if run["pat"][i] == "call":
+                        r = m(node, *a, **k)
+                    else:
+                        r = m.rec_fallback(node, *a, **k)
+                    o["res"] = r if isinstance(r, str) else "other:" + type(r).__name__
+                except RecursionError:
+                    raise
+                except Exception as exc:  # noqa: BLE001 - the class is the observation
+                    o["exc"] = exc_name(exc)
+                    o["same"] = False
+                if log:
+                    o["first"], o["a"], o["k"] = log[0]
+                o["n"] = len(log)
+                o["seq"] = [e[0] for e in log[:8]]
+                row.append(o)
+            obs.append(row)
+        rec["obs"] = obs
+        rec["stubs"] = sorted(stubs)
+        return rec
+
+
 # ------------------------------------------------------------------ traversal half
 _USER = {}
 
